@@ -95,6 +95,34 @@ def body(tid, kind, arg=None):
         _log("finish", tid)
 
 
+class Scaler:
+    """a callable with state, sent to the workers through loky.wrap_non_picklable_objects"""
+    def __init__(self):
+        self.k = 0
+
+    def __call__(self, tid):
+        return ["wrapped", tid, self.k]
+
+
+_WRAPPED = [None]
+
+
+def wrapped():
+    if _WRAPPED[0] is None:
+        from loky import wrap_non_picklable_objects
+        _WRAPPED[0] = wrap_non_picklable_objects(Scaler())
+    return _WRAPPED[0]
+
+
+def body_wrapped(tid, w):
+    _log("start", tid)
+    try:
+        esim.S.step("task.run")
+        return w(tid)
+    finally:
+        _log("finish", tid)
+
+
 INIT = {}
 
 
